@@ -164,15 +164,6 @@ def replay(rp):
     if rp.get("replay_op") == "bc-write":
         return L.replay_write(rp)
     if rp.get("replay_op") == "bc-sync":
-        events = D.unjson(rp["events"])
-        im = L.SyncImpl(rp.get("policy", "const"), None, None, list(rp.get("sync_outcomes", [])))
-        for ev in events:
-            im.apply(ev)
-        print(rp.get("kind"), "|", rp.get("message", ""))
-        for (ev, c, outs, en), u in zip(im.records, im.sync_used):
-            print("  %-30r connect() completes synchronously: %-5r connected=%d %r" % (ev, u, c, outs))
-        cm = L.closed_monitor(im.records, im.transport() is not None)
-        print("monitor verdict now:", cm)
-        return 1 if cm else 0
+        return L.replay_sync(rp)
     print(rp)
     return 1
